@@ -1558,4 +1558,73 @@ theorem nodup_map_inj {α β : Type} {f : α → β} {l : List α} (h : (l.map f
       · exact absurd (by rw [← hb1, ← e]; exact List.mem_map_of_mem ha1) h.1
       · exact ih h.2 ha1 hb1
 
+/-! ## Start-up: the adopted bookkeeping is well formed -/
+
+theorem foldl_max_ge (fes : List (SvcKey × FVal)) (n : Nat) :
+    n ≤ fes.foldl (fun n fe => if fe.2.id ≥ n then fe.2.id + 1 else n) n ∧
+    ∀ fe ∈ fes, fe.2.id < fes.foldl (fun n fe => if fe.2.id ≥ n then fe.2.id + 1 else n) n := by
+  induction fes generalizing n with
+  | nil => exact ⟨Nat.le_refl _, fun _ h => by simp at h⟩
+  | cons x rest ih =>
+    simp only [List.foldl_cons]
+    by_cases hx : x.2.id ≥ n
+    · simp only [hx, if_true]
+      obtain ⟨h1, h2⟩ := ih (x.2.id + 1)
+      refine ⟨by omega, ?_⟩
+      intro fe hfe
+      rcases List.mem_cons.1 hfe with rfl | hfe
+      · omega
+      · exact h2 fe hfe
+    · simp only [hx, if_false]
+      obtain ⟨h1, h2⟩ := ih n
+      refine ⟨h1, ?_⟩
+      intro fe hfe
+      rcases List.mem_cons.1 hfe with rfl | hfe
+      · omega
+      · exact h2 fe hfe
+
+/-- an entry of the adopted `prevSvcMap` comes from a kept frontend (or was there before). -/
+theorem adopt_get (svcs : List (String × Svc)) (kept : List (SvcKey × FVal)) (m0 : AMap SvcKey SvcInfo)
+    (sk : SvcKey) (info : SvcInfo)
+    (h : (kept.foldl (fun m fe =>
+      match svcs.find? (fun p => p.1 == fe.1.sname) with
+      | none => m
+      | some p => m.set fe.1 { id := fe.2.id, count := fe.2.count, lcl := fe.2.lcl, svc := p.2 }) m0).get sk = some info) :
+    m0.get sk = some info ∨ ∃ fe ∈ kept, fe.1 = sk ∧ info.id = fe.2.id := by
+  induction kept generalizing m0 with
+  | nil => exact Or.inl h
+  | cons x rest ih =>
+    simp only [List.foldl_cons] at h
+    rcases ih _ h with h1 | ⟨fe, hfe, h2⟩
+    · split at h1
+      · exact Or.inl h1
+      · rw [AMap.get_set] at h1
+        split at h1
+        · rename_i e; cases h1
+          exact Or.inr ⟨x, List.mem_cons_self .., e.symm, rfl⟩
+        · exact Or.inl h1
+    · exact Or.inr ⟨fe, List.mem_cons_of_mem _ hfe, h2⟩
+
+theorem matchBpfSvc_extra {np : List Nat} {key : FKey} {sname : String} {svc : Svc} {sk : SvcKey}
+    (h : matchBpfSvc np key sname svc = some sk) (n : Nat) : sk.extra ≠ .npRemote n := by
+  unfold matchBpfSvc at h
+  simp only [] at h
+  intro he
+  repeat' split at h
+  all_goals first
+    | (cases h; cases he)
+    | (simp only [Option.map_eq_some_iff] at h; obtain ⟨a, _, rfl⟩ := h; cases he)
+    | (cases h)
+
+theorem matched_extra {np : List Nat} {svcs : List (String × Svc)} {F : AMap FKey FVal} {fe : SvcKey × FVal}
+    (h : fe ∈ matchedFrontends np svcs F) (n : Nat) : fe.1.extra ≠ .npRemote n := by
+  unfold matchedFrontends at h
+  obtain ⟨kv, _, hkv⟩ := List.mem_filterMap.1 h
+  split at hkv
+  · cases hkv
+  · rename_i sname svc _
+    simp only [Option.map_eq_some_iff] at hkv
+    obtain ⟨sk, hsk, rfl⟩ := hkv
+    exact matchBpfSvc_extra hsk n
+
 end CalicoVerif.C42
